@@ -221,3 +221,11 @@ func Word(addr []byte) []byte {
 // BalanceReaderInit is the init code of the balance-reader template (used by scenario templates).
 func BalanceReaderInit() []byte { return Deploy(balanceReader()) }
 func GasBurnerInit() []byte     { return Deploy(gasBurner()) }
+
+// BalanceView: returns BALANCE(arg) as a 32-byte word and changes nothing (used by the vm_call probes).
+func balanceView() []byte {
+	a := &Asm{}
+	a.Push1(0).Op(CALLDATALOAD).Op(BALANCE).Push1(0).Op(MSTORE).Push1(32).Push1(0).Op(RETURN)
+	return a.B
+}
+func BalanceViewInit() []byte { return Deploy(balanceView()) }
